@@ -169,3 +169,38 @@ Definition measured_ok (body_ns recorded_ns outer_ns : Z) : bool :=
    finished - the run-level shape of C06_iteration_cleanups. *)
 Definition cleanups_once_ok (body_runs cleanup_runs : list Z) (early : Z) : bool :=
   forallb (Z.eqb 1) body_runs && forallb (Z.eqb 1) cleanup_runs && (early =? 0).
+
+(* ---------------------------------------------------------------- marks from helper goroutines
+
+   T's reporting methods may be called from goroutines the body started and waits for. Fail is two
+   steps: it reads tearingDown (a plain field, written only by the goroutine that owns the handle,
+   between iterations and around teardown) and then stores true into one of two atomic flags.
+   Helpers are stepped in any order (sched names the helper to step next). *)
+Inductive hpc := HStart | HRead (td : bool) | HDone.
+
+Definition hstep (t : tstate) (h : hpc) : tstate * hpc :=
+  match h with
+  | HStart => (t, HRead (tearing t))
+  | HRead true => ({| failed := failed t; tdfailed := true; tearing := tearing t; stack := stack t |}, HDone)
+  | HRead false => ({| failed := true; tdfailed := tdfailed t; tearing := tearing t; stack := stack t |}, HDone)
+  | HDone => (t, HDone)
+  end.
+
+Fixpoint set_nth {A} (l : list A) (i : nat) (x : A) : list A :=
+  match l, i with
+  | [], _ => []
+  | _ :: r, O => x :: r
+  | y :: r, S j => y :: set_nth r j x
+  end.
+
+Fixpoint hexec (t : tstate) (hs : list hpc) (sched : list nat) : tstate * list hpc :=
+  match sched with
+  | [] => (t, hs)
+  | i :: r =>
+    match nth_error hs i with
+    | Some h => let '(t', h') := hstep t h in hexec t' (set_nth hs i h') r
+    | None => hexec t hs r
+    end
+  end.
+
+Definition all_done (hs : list hpc) : bool := forallb (fun h => match h with HDone => true | _ => false end) hs.
